@@ -6,6 +6,7 @@
  * A free of a non-live pointer is counted and NOT forwarded to libc (so the run goes on). */
 #define VF_TRK
 #include "vf.h"
+#include <string.h>
 
 void *__real_malloc (size_t);
 void *__real_calloc (size_t, size_t);
@@ -67,20 +68,29 @@ static int del (void *p)
 	return 1;
 }
 
-void *__wrap_malloc (size_t n) { void *p = __real_malloc (n); add (p, n); return p; }
+/* what malloc returns is not zero and what free takes away does not keep its content: both are made deterministic
+ * (0xA5 / 0xDD), so that a value read from uninitialised or released heap memory is wrong on every run and not only when
+ * the allocator happens to recycle a dirty block (AddressSanitizer does the same for the asan variant) */
+void *__wrap_malloc (size_t n) { void *p = __real_malloc (n); if (p && n) memset (p, 0xA5, n); add (p, n); return p; }
 void *__wrap_calloc (size_t a, size_t b) { void *p = __real_calloc (a, b); add (p, a * b); return p; }
 void *__wrap_realloc (void *o, size_t n)
 {
 	void *p;
-	if (o && !find (o)) { badfree++; return NULL; }
+	size_t osz = 0;
+	ent *e = o ? find (o) : NULL;
+	if (o && !e) { badfree++; return NULL; }
+	if (e) osz = e->sz;
 	p = __real_realloc (o, n);
 	if (n == 0) { if (o) del (o); if (p) add (p, 0); return p; }
-	if (p) { if (o) del (o); add (p, n); }
+	if (p) { if (o) del (o); if (n > osz) memset ((char *) p + osz, 0xA5, n - osz); add (p, n); }
 	return p;
 }
 void __wrap_free (void *p)
 {
+	ent *e;
 	if (!p) return;
+	e = find (p);
+	if (e && e->sz) memset (p, 0xDD, e->sz);
 	if (!del (p)) { badfree++; return; }
 	__real_free (p);
 }
